@@ -63,6 +63,22 @@ PROPS["C01"] = {
     "explanation": "forward/backward loop invariants in definitional form; ghost freeze of d,c,e,zf; row identities by oriented substitution + rational normal form",
 }
 
+PROPS["C15"] = {
+    "modules": ["contracts.ops_autocorr"],
+    "contracts": ["hdc/algo/ops/autocorr.py::autocorr_1d_int", "hdc/algo/ops/autocorr.py::autocorr_1d_float"],
+    "standin": True,
+    "level": "proof",
+    "trusted": ["z3 5.1 / cvc5 1.0.3", "pow(v, -0.5) uninterpreted (the same operation in code and spec)", "isnan as an uninterpreted 'missing' predicate in model R",
+                "int64 accumulators do not overflow for int16 data of length <= 10^7 (machine integers treated as mathematical)",
+                "drivers autocorr / autocorr_tyx / autocorr_1d dispatch and the accessor: bounded stand-in (layouts, encodings, dask)"],
+    "not_proved": ["equality of the int/nodata and float/NaN encodings and of the two layouts: bounded stand-in (both kernels are proved against the same spec)",
+                   "affine invariance: follows from the spec (Pearson), checked by the stand-in", "float64 rounding"],
+    "assumptions": ["floats are exact reals (model R)"],
+    "level_text": "autocorr_1d_int / autocorr_1d_float: the single-pass sums are proved equal to their spec sums (loop invariant), the closed form is proved equal to the statement's mean-filled covariance/variance sums (bridge invariants with ghost means), the result is 0 without a valid pair or variance and always lies in [-1, 1]; for all lengths >= 3 and all gap patterns",
+    "level_note": "trusted: z3/cvc5; model R; pow/isnan uninterpreted; drivers, encodings/layout equivalence and accessor only bounded; Numba faithful (C13)",
+    "explanation": "loop invariant over 12 accumulators + three bridge identities carried through the loop with ghost means",
+}
+
 ALL = ["C%02d" % i for i in range(1, 21)]
 NOT_APPLICABLE = {
     "C13": "statement about Numba's type inference/lowering and the ctypes binding of SciPy kernels (the translator), not about functions of /repo: no contract on hdc-algo source can establish or refute it; it is the stated assumption of every proof here",
